@@ -24,19 +24,7 @@ def ns_of(module, clsname):
 
 def build_world(P):
     import modinfo
-    info = modinfo.load_all(P)
-    world = refgrammar.RefWorld()
-    refgrammar.FIRST_MATCH.update({"rfc3986.Rule": ["host"], "rfc3987.Rule": "ALL"})
-    classes = []
-    for module, recs in info.items():
-        for rec in recs:
-            cls = rec["cls"]
-            ns = ns_of(module, cls.__name__)
-            imports = [(name, (ns_of(sm, sc), sname.lower())) for name, sm, sname, sc in rec["imports"]]
-            disp = {}
-            world.add_module(ns, rec["grammar"], imports, display_names=disp)
-            classes.append((ns, cls))
-    return world, classes
+    return refgrammar.build_world(modinfo.load_all(P))
 
 
 def derive_ref(world, rng, key, depth=0, budget=[0]):
